@@ -20,9 +20,10 @@ Trace == ndJsonDeserialize("trace.ndjson")
 
 VARIABLES l, L, haveL, fees, executed, epoch, bad, drift,
           echg,     \* the epoch changed in the block being processed
-          rejfee    \* the block contains a transaction rejected at authentication that declared a non-zero fee
+          rejfee,   \* the block contains a transaction rejected at authentication that declared a non-zero fee
+          dbi       \* the chain's debonding interval (epochs), from its begin_chain event
 
-tvars == <<l, L, haveL, fees, executed, epoch, bad, drift, echg, rejfee>>
+tvars == <<l, L, haveL, fees, executed, epoch, bad, drift, echg, rejfee, dbi>>
 
 Relevant == {"begin_chain", "begin", "tx", "end"}
 
@@ -30,7 +31,7 @@ Empty == [supply |-> 0, common |-> 0, lastfees |-> 0, govdep |-> 0, acc |-> <<>>
 
 TraceInit ==
     /\ l = 1 /\ L = Empty /\ haveL = FALSE /\ fees = 0 /\ executed = {} /\ epoch = 0
-    /\ bad = "none" /\ drift = 0 /\ echg = FALSE /\ rejfee = FALSE
+    /\ bad = "none" /\ drift = 0 /\ echg = FALSE /\ rejfee = FALSE /\ dbi = 1
 
 Ev == Trace[l]
 Is(e) == l <= Len(Trace) /\ Ev.ev = e /\ l' = l + 1
@@ -47,11 +48,12 @@ SetBad(cs) == bad' = IF bad # "none" THEN bad ELSE FirstBad(cs)
 
 TrSkip ==
     /\ l <= Len(Trace) /\ Ev.ev \notin Relevant /\ l' = l + 1
-    /\ UNCHANGED <<L, haveL, fees, executed, epoch, bad, drift, echg, rejfee>>
+    /\ UNCHANGED <<L, haveL, fees, executed, epoch, bad, drift, echg, rejfee, dbi>>
 
 TrChain ==
     /\ Is("begin_chain")
     /\ L' = Empty /\ haveL' = FALSE /\ fees' = 0 /\ executed' = {} /\ epoch' = 0 /\ echg' = FALSE /\ rejfee' = FALSE
+    /\ dbi' = IF "debond" \in DOMAIN Ev THEN Ev.debond ELSE 1
     /\ UNCHANGED <<bad, drift>>
 
 DebSet(M) == {M.deb[i] : i \in DOMAIN M.deb}
@@ -74,7 +76,7 @@ TrBegin ==
           >>)
     /\ rejfee' = FALSE
     /\ echg' = (haveL /\ Ev.epoch # epoch)
-    /\ UNCHANGED <<executed, drift>>
+    /\ UNCHANGED <<executed, drift, dbi>>
 
 Nonce(M, a) == IF a \in DOMAIN M.acc THEN M.acc[a].n ELSE 0
 Gen(M, a) == IF a \in DOMAIN M.acc THEN M.acc[a].g ELSE 0
@@ -133,7 +135,12 @@ TrTx ==
             \* (runtime equivocation evidence slashes an escrow inside a transaction)
             <<sys \/ (ok /\ Ev.spec.kind = "rhevidence") \/ (ok /\ Ev.spec.kind = "mutated" /\ Ev.spec.gov = "roothash.Evidence")
                  \/ PriceNotFalling(L, M), "C15", "share price fell in a transaction">>,
-            <<\A x \in DebSet(L) : StillQueued(x, M), "C15", "debonding entry removed by a transaction">>
+            <<\A x \in DebSet(L) : StillQueued(x, M), "C15", "debonding entry removed by a transaction">>,
+            \* a reclaim queues its claim until the epoch in which it runs + the debonding interval (the epoch of the block as the
+            \* beacon reports it after BeginBlock: a reclaim in the first block of an epoch belongs to the new epoch)
+            <<(ok /\ ~sys /\ Ev.spec.kind = "reclaim") =>
+                 \A y \in DebSet(M) : (y[1] = s /\ y \notin DebSet(L)) => y[4] = epoch + dbi,
+              "C15", "a reclaim queued its claim for another epoch than the current one plus the debonding interval">>
           >>)
        \* Op refinement (drift only)
        /\ drift' = drift +
@@ -144,7 +151,7 @@ TrTx ==
              ELSE 0)
     /\ rejfee' = (rejfee \/ (Ev.env.decodable /\ Ev.env.fee > 0 /\ Ev.code # 0
                               /\ Nonce(Ev.state, Ev.env.signer) = Nonce(L, Ev.env.signer)))
-    /\ UNCHANGED <<haveL, epoch, echg>>
+    /\ UNCHANGED <<haveL, epoch, echg, dbi>>
 
 TrEnd ==
     /\ Is("end")
@@ -167,7 +174,7 @@ TrEnd ==
               "debonding entry not paid at the first epoch transition at or after its end epoch">>,
             <<\A x \in DebSet(L) : StillQueued(x, M) \/ x[4] <= epoch, "C15", "debonding entry paid before its end epoch">>
           >>)
-    /\ UNCHANGED <<haveL, executed, epoch, drift, echg, rejfee>>
+    /\ UNCHANGED <<haveL, executed, epoch, drift, echg, rejfee, dbi>>
 
 TraceNext == TrSkip \/ TrChain \/ TrBegin \/ TrTx \/ TrEnd
 TraceSpec == TraceInit /\ [][TraceNext]_tvars
